@@ -36,7 +36,7 @@ type C19Case struct {
 	ConnFault string   `json:"connfault,omitempty"` // with a configured request handler: the handler fails once with a connection error (EOF) at this request kind
 }
 
-var c19Ops = []string{"call", "call", "notify", "roots", "unknown", "terminate", "list"}
+var c19Ops = []string{"call", "call", "notify", "roots", "unknown", "terminate", "list", "reinit", "terminate-dead"}
 
 func genC19(t *rapid.T) C19Case {
 	c := C19Case{Kind: rapid.IntRange(0, 1).Draw(t, "kind"), Headers: rapid.IntRange(0, 2).Draw(t, "headers"), Before: rapid.IntRange(0, 3).Draw(t, "before") != 0,
@@ -202,7 +202,7 @@ func execC19(c C19Case) *Failure {
 		opts = append(opts, mcp.WithHTTPHeaders(http.Header{k: {v}}))
 	}
 	var bmu sync.Mutex
-	var beforeLog []c19Seen
+	var beforeLog, deadSeen []c19Seen
 	failedOnce := false
 	errBefore := errors.New("before-request says no")
 	if c.Before {
@@ -218,6 +218,12 @@ func execC19(c C19Case) *Failure {
 			tag, _ := ctx.Value(c19Key{}).(string)
 			bmu.Lock()
 			defer bmu.Unlock()
+			if ctx.Err() != nil {
+				// a request prepared under a context that has already ended: it must not be sent; whether the function is still
+				// consulted for it is not decided by the statement
+				deadSeen = append(deadSeen, c19Seen{kind: kind, ctxTag: tag})
+				return nil
+			}
 			beforeLog = append(beforeLog, c19Seen{kind: kind, ctxTag: tag})
 			if c.BeforeErr == kind && !failedOnce {
 				failedOnce = true
@@ -422,6 +428,55 @@ func execC19(c C19Case) *Failure {
 				if got {
 					wants = append(wants, want{"POST:response", "init"})
 				}
+			case "reinit":
+				// a second life of the same client: Close, then a new handshake (the customisations are the client's, not a life's)
+				if c.Kind != 0 || terminated {
+					continue
+				}
+				cl.Close()
+				time.Sleep(time.Millisecond)
+				streamsBefore := fake.GetTotal.Load()
+				bmu.Lock()
+				refusedEarlier := failedOnce
+				bmu.Unlock()
+				f = runOp(tag, []string{"POST:initialize", "POST:notifications/initialized"}, func(ctx context.Context) error {
+					_, err := cl.Initialize(ctx, &mcp.InitializeRequest{})
+					return err
+				})
+				if f == nil {
+					cl.SetRootsProvider(mcp.NewDefaultRootsProvider(mcp.Root{URI: "file:///r", Name: "r"}))
+					deadline := time.Now().Add(300 * time.Millisecond)
+					for fake.GetTotal.Load() == streamsBefore && time.Now().Before(deadline) {
+						bmu.Lock()
+						refused := c.BeforeErr == "GET" && failedOnce && !refusedEarlier
+						bmu.Unlock()
+						if refused {
+							break
+						}
+						time.Sleep(200 * time.Microsecond)
+					}
+					if fake.GetTotal.Load() > streamsBefore {
+						wants = append(wants, want{"GET", tag})
+					}
+				}
+			case "terminate-dead":
+				// the caller's context has already ended: nothing is sent (and certainly not under another context)
+				if c.Kind != 0 || terminated {
+					continue
+				}
+				dctx, dcancel := context.WithCancel(context.WithValue(context.Background(), c19Key{}, tag))
+				dcancel()
+				before := serverCount()
+				err := cl.TerminateSession(dctx)
+				if serverCount() != before {
+					smu.Lock()
+					k := reqKind(serverLog[before].Method, serverLog[before].RPC, serverLog[before].RPCKind)
+					smu.Unlock()
+					return Failf("C19/sent-under-foreign-context/"+k, "%s: TerminateSession was called with a context that had already ended (error returned: %v), yet a %s request reached the server", where(tag), err, k)
+				}
+				if err == nil {
+					return Failf("C19/dead-context-op-succeeded", "%s: TerminateSession under a context that had already ended returned nil", where(tag))
+				}
 			case "terminate":
 				if c.Kind != 0 || terminated {
 					continue
@@ -531,7 +586,7 @@ func execC19(c C19Case) *Failure {
 		return Failf("C19/request-multiset", "%s: the server received {%s}, the operations imply {%s}", where("end"), tally(srvKinds), tally(wantKinds))
 	}
 	nConnFaults := int(connFaults.Load())
-	if c.Handler && int(br.Forwarded.Load()) != len(srv)+nConnFaults {
+	if c.Handler && int(br.Forwarded.Load()-br.HandedDead.Load()) != len(srv)+nConnFaults {
 		return Failf("C19/bypasses-request-handler", "%s: the configured request handler was handed %d requests (%d of them lost with a connection error), the server received %d {%s}", where("end"), br.Forwarded.Load(), nConnFaults, len(srv), tally(srvKinds))
 	}
 	if c.Before {
